@@ -715,6 +715,70 @@ theorem C12_audit_id {κ α : Type} (B : List Hit → κ) (S : List Hit → List
       obtain ⟨s2, h2⟩ := applyAcl_audit frames none r.hits
       simp [ask, h1, h2]
 
+/-! ### Character tables and stats -/
+
+/-- `isWs` is false above U+3000 (so a comparison with `char::is_whitespace` below U+3100 is exhaustive) -/
+theorem isWs_bound (c : Char) (h : isWs c = true) : c.toNat ≤ 0x3000 := by
+  unfold isWs at h
+  simp only [Bool.or_eq_true, Bool.and_eq_true, decide_eq_true_eq, beq_iff_eq] at h
+  omega
+
+/-- `lowerChar` changes exactly `A..Z`, by +32 -/
+theorem lowerChar_spec (c : Char) :
+    (0x41 ≤ c.toNat ∧ c.toNat ≤ 0x5A → (lowerChar c).toNat = c.toNat + 32) ∧
+    (¬ (0x41 ≤ c.toNat ∧ c.toNat ≤ 0x5A) → lowerChar c = c) := by
+  unfold lowerChar
+  constructor
+  · intro h
+    rw [if_pos h]
+    have : (c.toNat + 32).isValidChar := by
+      left; omega
+    unfold Char.ofNat
+    rw [dif_pos this]
+    rfl
+  · intro h
+    rw [if_neg h]
+
+/-- stats bookkeeping of the filter: every hit is counted once -/
+theorem foldl_record_total (frames : Frames) (n : NCtx) (hits : List Hit) (s : Stats) :
+    let r := hits.foldl (fun s h => s.record (decideHit frames n h)) s
+    r.allowed + r.denied = s.allowed + s.denied + hits.length := by
+  induction hits generalizing s with
+  | nil => simp
+  | cons h t ih =>
+    simp only [List.foldl_cons, List.length_cons]
+    have := ih (s.record (decideHit frames n h))
+    simp only at this
+    rw [this]
+    cases decideHit frames n h <;> simp [Stats.record] <;> omega
+
+/-- the stats returned by the filter count every incoming hit exactly once -/
+theorem C12_apply_stats (frames : Frames) (mode : Mode) (ctx : Option Ctx) (hits out : List Hit) (st : Stats)
+    (h : applyAcl frames mode ctx hits = .ok (out, st)) : st.allowed + st.denied = hits.length := by
+  unfold applyAcl at h
+  cases mode with
+  | audit =>
+    simp only at h
+    cases hn : normalizeCtx ctx with
+    | none =>
+      simp only [hn, Except.ok.injEq, Prod.mk.injEq] at h
+      obtain ⟨_, rfl⟩ := h
+      simp
+    | some n =>
+      simp only [hn, Except.ok.injEq, Prod.mk.injEq] at h
+      obtain ⟨_, rfl⟩ := h
+      have := foldl_record_total frames n hits {}
+      simpa using this
+  | enforce =>
+    simp only at h
+    cases hv : validateEnforce ctx with
+    | error e => simp [hv] at h
+    | ok n =>
+      simp only [hv, Except.ok.injEq, Prod.mk.injEq] at h
+      obtain ⟨_, rfl⟩ := h
+      have := foldl_record_total frames n hits {}
+      simpa using this
+
 /-! ### Non-vacuity: concrete instances -/
 
 section Examples
